@@ -263,9 +263,15 @@ def showRet : ProcRet → String
 
 structure PS where
   model : Proc := {}
-  pending : Option ProcOp := none
+  pending : Option XOp := none
   impl : List ProcObs := []      -- oldest first
   bad : Option String := none
+  -- `mode=profiles` cases (xprocessorhelper.NewProfiles next to processorhelper.NewLogs): the `obs` lines also carry the sum
+  -- over ALL series of the two instruments and the number of series, so that a series for a fourth signal is seen
+  ext : Bool := false
+  touched : List Signal := []    -- signals that had an operation (each creates its incoming and its outgoing series)
+  last : ProcSnap := {}          -- counters the implementation showed after the previous operation
+  notes : List String := []
 
 def showSnap (p : ProcSnap) : String := showTriple p.incoming p.outgoing
 
@@ -282,36 +288,70 @@ def procFirstFail : ProcSnap → List ProcObs → Nat → Option String
 
 def procHandler : Handler PS where
   init := {}
+  onCase := fun s toks => { s with ext := kv toks "mode" == some "profiles" }
   onOp := fun s toks =>
     match toks with
     | "proc" :: rest =>
-      match (kv rest "sig").bind parseSig, kvNat rest "in", (kv rest "out").bind parseOutcome with
-      | some sig, some inp, some oc =>
-        let op : ProcOp := ⟨sig, inp, oc⟩
-        let (m, ret) := s.model.consume op
+      let x : Option XOp :=
+        match kv rest "sig", kvNat rest "in", (kv rest "out").bind parseOutcome with
+        | some "p", some inp, some oc => some (.prof inp oc)
+        | some sg, some inp, some oc => (parseSig sg).map (fun sig => .sig ⟨sig, inp, oc⟩)
+        | _, _, _ => none
+      match x with
+      | some x =>
+        let (m, ret) := s.model.consumeX x
+        let oc := match x with
+          | .sig op => op.outcome
+          | .prof _ oc => oc
         let sink := match oc with
           | .ok o _ => toString o
           | _ => "-"
-        ({ s with model := m, pending := some op }, [s!"obs cnt {showTriple m.incoming m.outgoing} sink={sink} ret={showRet ret}"])
-      | _, _, _ => (s, ["obs bad-op"])
+        let touched := match x with
+          | .sig op => if s.touched.contains op.sig then s.touched else op.sig :: s.touched
+          | .prof _ _ => s.touched
+        let total := (Signal.all.map (fun sg => m.incoming sg + m.outgoing sg)).sum
+        let extra := if s.ext then s!" total={total} series={2 * touched.length}" else ""
+        ({ s with model := m, pending := some x, touched := touched },
+         [s!"obs cnt {showTriple m.incoming m.outgoing} sink={sink} ret={showRet ret}{extra}"])
+      | none => (s, ["obs bad-op"])
     | _ => (s, ["obs bad-op"])
   onObs := fun s toks =>
     match toks with
     | _ :: "cnt" :: tr :: rest =>
       match s.pending, parseTriple tr, kv rest "sink" with
-      | some op, some (i, o), some sk =>
+      | some x, some (i, o), some sk =>
         let sink : Option (Option Nat) := if sk = "-" then some none else sk.toNat?.map some
         match sink with
         | some sink =>
-          { s with impl := s.impl ++ [{ sig := op.sig, inp := op.inp, sink := sink, after := { incoming := i, outgoing := o } }], pending := none }
+          let after : ProcSnap := { incoming := i, outgoing := o }
+          -- a profiles payload, seen from the counters, is a step in which nothing was given and nothing forwarded
+          -- (`C19_profiles_step`): no counter of any signal may move
+          let step : ProcObs := match x with
+            | .sig op => { sig := op.sig, inp := op.inp, sink := sink, after := after }
+            | .prof _ _ => { sig := .traces, inp := 0, sink := none, after := after }
+          let isProf := match x with
+            | .prof _ _ => true
+            | .sig _ => false
+          let s := if isProf && !procStepB s.last step
+            then { s with notes := s.notes ++ [s!"sig=C19/processor/profiles-moved-a-counter before={showSnap s.last} after={showSnap after}"] } else s
+          -- nothing may be recorded outside the three otel.signal series of this processor
+          let s := if s.ext then
+              match kvNat rest "total", kvNat rest "series" with
+              | some tot, some ser =>
+                if tot != (Signal.all.map (fun sg => i sg + o sg)).sum || ser != 2 * s.touched.length
+                then { s with notes := s.notes ++ [s!"sig=C19/processor/unexpected-series total={tot} series={ser} known={showSnap after}"] } else s
+              | _, _ => { s with notes := s.notes ++ ["sig=C19/processor/unparsable total=/series="] }
+            else s
+          { s with impl := s.impl ++ [step], last := after, pending := none }
         | none => { s with bad := some "unparsable sink", pending := none }
       | _, _, _ => { s with bad := some "unparsable counters", pending := none }
     | [_, "panic"] => { s with bad := some "panic" }
     | _ => s
   onEnd := fun s =>
-    match s.bad with
-    | some b => [s!"prop proc=FAIL sig=C19/processor/unparsable {b}"]
-    | none =>
+    match s.bad, s.notes with
+    | some b, _ => [s!"prop proc=FAIL sig=C19/processor/unparsable {b}"]
+    | none, n :: _ => [s!"prop proc=FAIL {n}"]
+    | none, [] =>
       if procCheck {} s.impl then ["prop proc=ok"] else
       match procFirstFail {} s.impl 0 with
       | some f => [s!"prop proc=FAIL {f}"]
